@@ -3,6 +3,7 @@ package worlds
 import (
 	"bufio"
 	"bytes"
+	"context"
 	"errors"
 	"fmt"
 	"io"
@@ -123,6 +124,8 @@ type c18Req struct {
 	access   []([2]int)
 	idMask   string
 	finished bool
+	panics   int // 0: the handler returns; 1: panic(http.ErrAbortHandler) at the end; 2: panic("boom")
+	gotPanic interface{}
 }
 
 type c18Run struct {
@@ -214,6 +217,14 @@ func (r *c18Run) final() http.Handler {
 				w.Header().Set("X-Resp", fmt.Sprintf("resp-%d", q.i))
 			}
 		}
+		switch q.panics {
+		case 1:
+			zsim.Fault("handler_panics")
+			panic(http.ErrAbortHandler)
+		case 2:
+			zsim.Fault("handler_panics")
+			panic(fmt.Sprintf("boom-%d", q.i))
+		}
 	})
 }
 
@@ -267,6 +278,17 @@ func (r *c18Run) serve(h http.Handler, q *c18Req) {
 	default:
 		w = rwFull{q.fake}
 	}
+	q.gotPanic = nil
+	defer func() {
+		// a panicking handler: the panic must come out unchanged (a server would log it),
+		// and AccessHandler must still have reported what was really sent
+		if p := recover(); p != nil {
+			if zsim.Dying() {
+				panic(p)
+			}
+			q.gotPanic = p
+		}
+	}()
 	h.ServeHTTP(w, q.req)
 }
 
@@ -309,6 +331,15 @@ func (c18World) Run(prop string, ch *zsim.Choices, trace bool) *RunResult {
 			accessAt = ch.Intn(np + 1)
 		}
 		h := r.chain(parent, picks, accessAt)
+		// in a third of the runs every request context already carries a logger
+		// (http.Server.BaseContext or an outer middleware): the same *Logger for all requests
+		var baseCtx context.Context
+		var baseLogger zerolog.Logger
+		if ch.Chance(1, 3) {
+			baseLogger = zerolog.New(sink).With().Str("base", "ctx").Logger()
+			baseCtx = baseLogger.WithContext(context.Background())
+			zsim.Probe("base_context_logger")
+		}
 		R := 2 + ch.Intn(4)
 		for i := 0; i < R; i++ {
 			req, _ := http.NewRequest([]string{"GET", "POST", "PUT", "DELETE", "PATCH"}[i%5], fmt.Sprintf("http://host%d.example:80%d/path/%d?q=%d", i, i, i, i), nil)
@@ -317,11 +348,14 @@ func (c18World) Run(prop string, ch *zsim.Choices, trace bool) *RunResult {
 			req.Header.Set("Referer", fmt.Sprintf("http://ref%d/", i))
 			req.Header.Set("X-Custom", fmt.Sprintf("custom-%d", i))
 			req.Proto = []string{"HTTP/1.1", "HTTP/2.0", "HTTP/1.0"}[i%3]
-			q := &c18Req{i: i, req: req, rwMode: ch.Weighted(3, 1, 1, 1), rwKind: ch.Intn(3)}
+			q := &c18Req{i: i, req: req, rwMode: ch.Weighted(3, 1, 1, 1), rwKind: ch.Intn(3), panics: ch.Weighted(6, 1, 1)}
+			if baseCtx != nil {
+				q.req = req.WithContext(baseCtx)
+			}
 			if ch.Chance(1, 2) {
 				// a request id supplied by the caller; otherwise RequestIDHandler makes one up
 				if id, err := xid.FromString(fmt.Sprintf("9m4e2mr0ui3e8a2%d0000", i)); err == nil {
-					q.req = req.WithContext(hlog.CtxWithID(req.Context(), id))
+					q.req = q.req.WithContext(hlog.CtxWithID(q.req.Context(), id))
 				} else {
 					zsim.Fail("harness", "xid: %v", err)
 				}
@@ -339,6 +373,9 @@ func (c18World) Run(prop string, ch *zsim.Choices, trace bool) *RunResult {
 			r.probe = dst
 			parent.Info().Msg("parent probe")
 			parent.Error().Str("k", "v").Msg("parent probe 2")
+			if baseCtx != nil {
+				zerolog.Ctx(baseCtx).Info().Msg("base context logger probe")
+			}
 			r.probe = nil
 		}
 		probe(&probeBefore)
@@ -380,6 +417,20 @@ func (c18World) Run(prop string, ch *zsim.Choices, trace bool) *RunResult {
 			for k := range q.events {
 				if !bytes.Equal(q.events[k], q.ref[k]) {
 					return viol("C18.isolation", "request %d, event %d differs from the same request served alone (first difference at byte %d):\n got  %s\n want %s", q.i, k, firstDiff(q.events[k], q.ref[k]), clip(q.events[k], 400), clip(q.ref[k], 400))
+				}
+			}
+			switch q.panics {
+			case 0:
+				if q.gotPanic != nil {
+					return viol("C18.access", "request %d: serving panicked with %v although the handler returned normally", q.i, q.gotPanic)
+				}
+			case 1:
+				if q.gotPanic != http.ErrAbortHandler {
+					return viol("C18.access", "request %d: the handler panicked with http.ErrAbortHandler, the chain let out %v", q.i, q.gotPanic)
+				}
+			case 2:
+				if q.gotPanic != fmt.Sprintf("boom-%d", q.i) {
+					return viol("C18.access", "request %d: the handler's panic value came out as %v", q.i, q.gotPanic)
 				}
 			}
 			if hasAccess {
